@@ -27,8 +27,15 @@ class C15(InterpProp):
         kn = self.knobs(rnd, tier)
         n = rnd.randint(2, 4)
         charts, encs = [], []
+        spoof = rnd.random() < 0.04
         for _ in range(n):
             sc = gen.ChartGen(rnd, kn).build()
+            if spoof:
+                # K1: a user meta-event that calls itself 'event sent' (known finding, see known_findings.json)
+                evented = [t for t in sc.transitions if t.event]
+                if evented:
+                    t = rnd.choice(evented)
+                    t.action = ((t.action + '\n') if t.action else '') + "notify('event sent', event=event)"
             charts.append(sc)
             encs.append(ChartEnc(sc))
         ops = [['create', i, False, [], 0] for i in range(n)]
@@ -128,7 +135,15 @@ class C15(InterpProp):
                     if got != exp:
                         res.violations.append('op %d: callable %d received %s, expected %s' % (k, cbk, got[-3:], exp[-3:]))
                         recv[cbk] = list(got)
+        if any("notify('event sent'" in (t.action or '') for sc in case.aux['charts'] for t in sc.transitions):
+            res.features.add('spoofed-event-sent')
         if any(not b[3] for b in bound.values()):
             res.features.add('detached')
         if not res.features:
             res.features.add('no-feature')
+
+    def known_signature(self, finding, case, res):
+        if finding.get('signature') == 'notify-event-sent':
+            spoof = any("notify('event sent'" in (t.action or '') for sc in case.aux['charts'] for t in sc.transitions)
+            return spoof and all(v.startswith('op ') and (': callable ' in v or 'differ from those announced' in v) for v in res.violations)
+        return False
